@@ -164,6 +164,7 @@ impl Prop for C15 {
         vec![
             GenSpec::enumerated("pow2-neighbourhood", 508),
             GenSpec::enumerated("sparse-mantissa", 128),
+            GenSpec::enumerated("dense-mantissa", 128),
             GenSpec::enumerated("constants", 1),
             GenSpec::random("random-doubles", tier.pick(10_000, 200_000)),
             GenSpec::random("random-gdsreals", tier.pick(5_000, 100_000)),
@@ -198,6 +199,23 @@ impl Prop for C15 {
                     }
                 }
                 cx.sample(|| json!({"exponent_field": e, "patterns": "one- and two-bit mantissas"}));
+            }
+            "dense-mantissa" => {
+                // the complement of the sparse patterns: mantissas that are runs of ones (all 56, 55, 54, 53 bits set, minus 0..32, and with
+                // one hole), where rounding to 53 bits carries all the way up into the next power of two
+                let e = cx.n;
+                for sign in 0..2u64 {
+                    for top in 53..=56u64 {
+                        let ones = (1u64 << top) - 1;
+                        for j in 0..32u64 {
+                            self.check_gdsreal(cx, (sign << 63) | (e << 56) | (ones - j));
+                        }
+                        for hole in 0..top - 1 {
+                            self.check_gdsreal(cx, (sign << 63) | (e << 56) | (ones & !(1u64 << hole)));
+                        }
+                    }
+                }
+                cx.sample(|| json!({"exponent_field": e, "patterns": "runs of ones, minus 0..32, with one hole"}));
             }
             "constants" => {
                 let mut v = vec![1e-3, 1e-9, 1e-6, 1e-10, 1e-12, 1e-4, 1.0, 2.0, 0.5, 90.0, 180.0, 270.0, 360.0, 45.0, 0.1,
